@@ -19,7 +19,10 @@ STRENGTHENED = {
     # wave 2
     'C01-m5', 'C02-m6', 'C04-m4', 'C04-m5', 'C04-m6', 'C05-m5', 'C05-m6', 'C07-m4', 'C07-m6', 'C08-m5', 'C08-m6',
     'C09-m5', 'C09-m6', 'C11-m6', 'C12-m5', 'C12-m6', 'C13-m5', 'C13-m6', 'C16-m6', 'C18-m4', 'C18-m6', 'C19-m6',
-    'C20-m5', 'C20-m6', 'C20-m7'}
+    'C20-m5', 'C20-m6', 'C20-m7',
+    # wave 3
+    'C01-m9', 'C04-m10', 'C05-m9', 'C07-m10', 'C08-m10', 'C09-m9', 'C10-m10', 'C11-m10', 'C12-m10', 'C14-m10',
+    'C15-m10', 'C16-m10', 'C17-m10', 'C18-m10', 'C20-m8', 'C20-m10'}
 
 
 def title(notes):
